@@ -3746,7 +3746,7 @@ func (vm *Thread) opSubtractInt() {
 func (vm *Thread) opSubtractFloat() {
 	right := vm.popGet()
 	left := vm.peek()
-	l := left.AsSmallInt()
+	l := left.AsFloat()
 	result, _ := l.SubtractVal(right)
 	vm.replace(result)
 }
